@@ -550,7 +550,8 @@ def _z(n):
 
 
 def _st(ss):
-    return 'zz ' + ' '.join(_z(x) for x in ss)
+    # a component the implementation left unset (None) becomes a value the model never produces
+    return 'zz ' + ' '.join(_z(-999 if x is None else x) for x in ss)
 
 
 def coq_msg(m):
@@ -721,7 +722,7 @@ def run(run: Run):
             if run.tier != 'quick':
                 for b in alphabet()[::5]:
                     explore({}, prefix + [a, b], f'rich{pi}+2')
-    n = 150 if run.tier == "quick" else 3000
+    n = 100 if run.tier == "quick" else 3000
     for i in range(n):
         explore(rng.choice(BLOCKMAPS), gen_seq(rng), 'random')
 
@@ -763,6 +764,10 @@ def alphabet():
         ['UserStats', 'u1', st], ['AddUser', 'u1', True, 1, st], ['AddUser', 'u1', False, 0, None], ['PrivUsers', ['u1']], ['PrivUsers', []],
         ['AddPrivUser', 'u1'],
         ['JoinRoom', 'r0', [['u1', 2, st], ['u2', 0, st], ['me', 2, st]], None, []],
+        # every status value (offline / away / online) through every status-carrying notification
+        ['UserStatus', 'u1', 0, False], ['UserStatus', 'u2', 0, True], ['UserStatus', 'me', 0, False],
+        ['UserJoined', 'r0', 'u2', 0, st], ['UserJoined', 'r0', 'u1', 2, st], ['AddUser', 'u1', True, 0, st], ['AddUser', 'u2', True, 2, st],
+        ['UserStats', 'u2', [0, 0, 0, 0]],
     ]
 
 
